@@ -43,6 +43,7 @@ type e1Cfg struct {
 	DensePct     int  // percent of (unkeyed) histories that start from a dense multi-block layout with holes only beyond block 0
 	TailPct      int  // percent of restore cycles whose snapshot is taken while transactions commit (non-empty log tail)
 	Interlope    bool // C02: other transactions commit while the observed transaction is in flight
+	PDelAll      int  // percent of transaction steps that are {filter chain; Txn.DeleteAll()}
 	FlakyLogPct  int  // percent of histories whose logger reports an error on every 2nd..4th Append (after recording it)
 }
 
@@ -85,7 +86,8 @@ type history struct {
 	failed      bool
 	steps       int
 	interlopers bool
-	dirtyBefore bool // the pre-transaction dump is stale (another transaction committed meanwhile)
+	late        map[string]bool // columns created after the data
+	dirtyBefore bool            // the pre-transaction dump is stale (another transaction committed meanwhile)
 }
 
 func (h *history) logf(format string, a ...any) {
@@ -117,7 +119,7 @@ func (h *history) violate(kind, detail, kf string) {
 
 func runHistory(w *W, idx int, cfg e1Cfg) {
 	seed := w.Seed*7919 + int64(idx)*104729 + int64(len(cfg.Prop))
-	h := &history{w: w, idx: idx, cfg: cfg, rng: rand.New(rand.NewSource(seed)), stats: map[string]int64{}, lastID: map[uint32]uint64{}, nCols: map[Kind]int{}}
+	h := &history{w: w, idx: idx, cfg: cfg, rng: rand.New(rand.NewSource(seed)), stats: map[string]int64{}, lastID: map[uint32]uint64{}, nCols: map[Kind]int{}, late: map[string]bool{}}
 	h.caseID = fmt.Sprintf("E1:%s:hist%d", cfg.Prop, idx)
 	w.Begin(idx, h.caseID)
 	h.g = newGen(seed+1, cfg.Pool)
@@ -541,8 +543,11 @@ func (h *history) step() {
 		h.schemaChange()
 	case x < cfg.PIdxChg+cfg.PNewCol && len(cfg.LateKinds) > 0:
 		k := cfg.LateKinds[h.rng.Intn(len(cfg.LateKinds))]
-		if h.nCols[k] < 2 {
+		if h.rng.Intn(4) == 0 {
+			h.dropLateColumn()
+		} else if h.nCols[k] < 2 {
 			c := h.addColumn(k)
+			h.late[c.Name] = true
 			h.stats["columns_created_over_data"]++
 			h.logf("CreateColumn(%s) over %d live rows", c.Name, len(h.wd.M.Live))
 		}
@@ -561,7 +566,7 @@ func (h *history) step() {
 
 func (h *history) schemaChange() {
 	m := h.wd.M
-	switch h.rng.Intn(6) {
+	switch h.rng.Intn(7) {
 	case 0, 1:
 		if h.cfg.NIdx > 0 && len(m.Idx) < 6 {
 			h.newIndex()
@@ -592,6 +597,46 @@ func (h *history) schemaChange() {
 			h.stats["trig_dropped"]++
 			h.logf("DropTrigger(%s)", t.Name)
 		}
+	case 6:
+		h.dropLateColumn()
+	}
+}
+
+// dropLateColumn drops a column created after the data (one without index, sorted index or
+// trigger): a later CreateColumn of the same kind re-uses the name and must start without values.
+func (h *history) dropLateColumn() {
+	m := h.wd.M
+	if len(h.cfg.LateKinds) == 0 {
+		return
+	}
+	var cand []ColSpec
+	for _, c := range m.Cols {
+		if !h.late[c.Name] {
+			continue
+		}
+		used := false
+		for _, ix := range m.Idx {
+			used = used || ix.Col == c.Name
+		}
+		for _, sx := range m.Sorted {
+			used = used || sx.Col == c.Name
+		}
+		for _, t := range m.Trig {
+			used = used || t.Col == c.Name
+		}
+		if !used {
+			cand = append(cand, c)
+		}
+	}
+	if len(cand) > 0 {
+		c := cand[h.rng.Intn(len(cand))]
+		h.wd.dropColumn(c.Name)
+		delete(h.late, c.Name)
+		if colName(c.Kind, h.nCols[c.Kind]-1) == c.Name {
+			h.nCols[c.Kind]-- // the name becomes available again
+		}
+		h.stats["columns_dropped"]++
+		h.logf("DropColumn(%s)", c.Name)
 	}
 }
 
@@ -648,6 +693,10 @@ func (h *history) txnStep() {
 		return
 	}
 	spec := h.g.genTxn(m, h.liveRows(), cfg.Txn)
+	if cfg.PDelAll > 0 && h.rng.Intn(100) < cfg.PDelAll && len(m.Live) > 0 {
+		spec = TxnSpec{Ops: []Op{{T: "delall", Chain: h.genChain()}}, Abort: h.rng.Intn(100) < cfg.Txn.PAbort}
+		h.stats["delete_all_transactions"]++
+	}
 	if len(spec.Ops) == 0 {
 		return
 	}
